@@ -117,6 +117,11 @@ def check(case):
         if r.skip in ("load-problem:class-count", "load-problem:class-for-model"):
             r.skip = None
             r.fail("nested:not-one-class-per-model", f"{src_nested}\n--- flat ---\n{src_flat}")
+        elif r.skip and r.skip.startswith("load-problem:"):
+            # the flat module of the same models loaded fine: the two layouts do not describe the same thing
+            clause = r.skip[len("load-problem:"):]
+            r.skip = None
+            r.fail("nested:does-not-load-while-flat-does:" + clause, f"{src_nested}\n--- flat ---\n{src_flat}")
         return r
     tf, tn = table(vf), table(vn)
     if set(tf) != set(tn):
@@ -156,13 +161,15 @@ def check(case):
 
 @st.composite
 def cases(draw, tier="quick"):
-    universe = draw(gen.key_universe(gen.ASCII_KEY_POOLS, min_size=2, max_size=7))
+    universe = draw(gen.key_universe(gen.ASCII_KEY_POOLS + [["field", "list", "größe", "Optional", "naïve", "class", "ID", "e-mail"]],
+                                     min_size=2, max_size=7))
     big = tier == "thorough"
     deep = gen.values(universe, max_leaves=14 if big else 10, obj_max=3)
     nested_objs = st.lists(st.dictionaries(st.sampled_from(universe), deep, min_size=1, max_size=4), min_size=1, max_size=3)
     samples = draw(st.one_of(gen.sample_lists(universe, max_samples=4), nested_objs, nested_objs))
     opts = draw(gen.option_sets(universe))
-    opts["merge"] = draw(st.one_of(st.just([["exact"]]), st.just([["percent", 100]]), st.just([["number", 10]]), gen.merge_policies()))
+    opts["merge"] = draw(st.one_of(st.just([["exact"]]), st.just([["percent", 100]]), st.just([["number", 10]]), st.just([["number", 10]]),
+                                   gen.merge_policies()))
     return {"samples": samples, "opts": opts}
 
 
